@@ -16,7 +16,7 @@ trap 'git -C /repo worktree remove --force "$WT" 2>/dev/null; rm -rf "$WT"' EXIT
   echo "exit $ap"
   echo "== demo with change"; ( cd "$WT" && PYTHONPATH="$WT" timeout 300 /venv/bin/python -W ignore "$SRC/demo.py" ); d1=$?
   echo "exit $d1"
-  echo "== suite"; /tmp/seedtools/run_suite.py "$WT" | tail -5; su=${PIPESTATUS[0]}
+  echo "== suite"; /verif/tools/run_suite.py "$WT" | tail -5; su=${PIPESTATUS[0]}
   echo "exit $su"
   find "$WT" -name "*.orig" -delete; rm -f "$WT/.coverage"
   echo "== check"
